@@ -40,6 +40,7 @@ def runs(I, params, solvers=("euler", "rk4", "odeint")):
         kw = {"rtol": "7/500000000", "atol": "7/500000000"} if s == "odeint" else {}
         r = I.apply(dict({"op": "run", "params": [[k, v] for k, v in params.items()], "solver": s}, **kw))
         out[s] = np.array(r["outputs"]) if r["ok"] else None
+        out[s + ":derived"] = dict((k, np.array(v)) for k, v in r["derived"]) if r["ok"] else None
     return out
 
 def compare(out, payload, what, I0, I1, params0, params1, ops0, ops1, keymap=lambda k: k, factor=1.0):
@@ -52,9 +53,24 @@ def compare(out, payload, what, I0, I1, params0, params1, ops0, ops1, keymap=lam
     perm = [k1.index(k) for k in mk0]
     r0 = runs(I0, params0); r1 = runs(I1, params1)
     ok = True
-    for s in r0:
+    for s in [k for k in r0 if not k.endswith(":derived")]:
         a, b = r0[s], r1[s]
         out["evals"] += 1
+        # derived outputs (time shift only: every request kind is invariant under a shift of a time-free model, cumulative start times shifted along)
+        if what == "shift" and a is not None and b is not None:
+            d0, d1 = r0[s + ":derived"], r1[s + ":derived"]
+            if sorted(d0) != sorted(d1):
+                fail(out, f"{what}: derived output names differ ({s})", "c15", payload, program=ops0, variant_program=ops1); ok = False
+            else:
+                for k in d0:
+                    x, y = d0[k], d1[k]
+                    if not (np.all(np.isfinite(x)) and np.all(np.isfinite(y))): continue
+                    Nd = max(1.0, float(np.abs(x).max()))
+                    told = 1e-9 * Nd if s != "odeint" else 1e-5 * Nd
+                    if x.shape != y.shape or np.abs(x - y).max() > told:
+                        fail(out, f"{what}: derived output {k} differs ({s})", "c15", payload, worst=float(np.abs(x - y).max()) if x.shape == y.shape else None,
+                             tol=told, program=ops0, variant_program=ops1, params=params0)
+                        ok = False; break
         if a is None or b is None:
             if (a is None) != (b is None):
                 fail(out, f"{what}: one build runs and the other fails ({s})", "c15", payload, program=ops0, variant_program=ops1); ok = False
@@ -76,7 +92,8 @@ def task(W, payload):
     variant = payload["variant"]
     r = random.Random(f"C15:{payload['seed']}:{payload['index']}")
     opts = Opts(max_strats=2, max_flows=6, allow_requests=False, allow_computed=False, allow_state=False, small_dt=True, max_steps=6, allow_rebalance=False)
-    if variant == "shift": opts.allow_time = False
+    if variant == "shift":
+        opts.allow_time = False; opts.allow_requests = True; opts.n_requests = 4; opts.negative_start_bias = 0.3
     if variant in ("order", "swap"): opts.allow_post_flows = False
     if variant == "swap": opts.max_strats = 2; opts.force_strat = True
     g = Gen(r, opts)
@@ -165,7 +182,15 @@ def task(W, payload):
         ops, ops1 = a, b
     elif variant == "shift":
         delta = r.choice([Fr(5), Fr(-3), Fr(7, 2), Fr(100)])
+        starts = [Fr(op["start"]) for op in ops if op["op"] == "request" and op["kind"] == "cum" and op.get("start") is not None]
+        if starts and r.random() < 0.6:
+            s0 = r.choice(starts)
+            if s0 != 0: delta = -s0        # a cumulative output whose (shifted) start time is exactly 0
+            bump(out, "shift:cum_start_to_zero")
         ops1[0]["t0"] = q(Fr(ops[0]["t0"]) + delta); ops1[0]["t1"] = q(Fr(ops[0]["t1"]) + delta)
+        for op in ops1:
+            if op["op"] == "request" and op["kind"] == "cum" and op.get("start") is not None:
+                op["start"] = q(Fr(op["start"]) + delta)
     elif variant == "scale":
         k = r.choice([Fr(2), Fr(10), Fr(1, 2), Fr(1000)])
         factor = float(k)
